@@ -51,7 +51,7 @@ where
         Some(SessionOutcome::Hung(_)) => {
             let pending = handles.iter().filter(|h| !h.is_finished()).count();
             let how = if world.hung_flag.get() { "some tasks busy-wait while nothing makes progress (4 million polls without an I/O event or a completed operation)" } else { "nothing was runnable for 4 simulated hours" };
-            ctx.violate(&["C08"], "deadlock", "client operations never complete: the storage is deadlocked", format!("session {} pending clients {} of {}; {}; channel capacity {}", si, pending, n, how, plan.sched.channel_cap));
+            ctx.violate(&["C08", "C13"], "deadlock", "client operations never complete: the storage is deadlocked", format!("session {} pending clients {} of {}; {}; channel capacity {}", si, pending, n, how, plan.sched.channel_cap));
             for h in handles.iter() {
                 h.abort();
             }
